@@ -464,6 +464,16 @@ pub enum ClaimOp {
     Remove(String),
 }
 
+/// operations on ONE GenericBuilder that is built from several times (C14 histories)
+#[derive(Clone, Debug, Serialize, Deserialize, PartialEq)]
+pub enum GOp {
+    Set(Claim),
+    Remove(String),
+    Footer(String),
+    Assertion(String),
+    Build,
+}
+
 /// operations on the batteries-included builder (C13, C17)
 #[derive(Clone, Debug, Serialize, Deserialize, PartialEq)]
 pub enum BOp {
@@ -520,6 +530,8 @@ pub enum PStep {
     Parse { token: String, key: usize },
     /// let wall-clock time pass while the parser object stays alive
     SleepMs(u64),
+    /// register (or replace) an expected claim on the live parser
+    Check(Claim),
 }
 
 thread_local! {
@@ -732,6 +744,7 @@ pub trait Proto {
     fn generic_open(key: &KeyMat, token: &str, cfg: &ParserCfg) -> (Out<Value>, Vec<&'static str>);
     /// one parser, several tokens in sequence
     fn generic_open_seq(key: &KeyMat, tokens: &[&str], cfg: &ParserCfg) -> Vec<(Out<Value>, Vec<(String, Value)>)>;
+    fn generic_run(key: &KeyMat, ops: &[GOp]) -> Vec<Out<String>>;
     fn batteries_run(key: &KeyMat, ops: &[BOp]) -> Vec<Out<String>>;
     /// one parser object (generic or batteries layer) driven through `steps`; returns one outcome per Parse step
     fn session(batteries: bool, keys: &[KeyMat], cfg: &ParserCfg, steps: &[PStep]) -> Vec<Out<Value>>;
@@ -926,6 +939,42 @@ macro_rules! impl_proto {
                 }
             }
             #[allow(unused_variables)]
+            fn generic_run(key: &KeyMat, ops: &[GOp]) -> Vec<Out<String>> {
+                let mut outs = Vec::new();
+                let mut b = GenericBuilder::<$V, $Pu>::default();
+                for op in ops {
+                    match op {
+                        GOp::Set(c) => {
+                            let (o, _) = guard(|| -> Result<(), PasetoClaimError> { set_claim_on!(b, c) }, claim_err);
+                            if !matches!(o, Out::Ok(())) {
+                                outs.push(match o {
+                                    Out::Err(e) => Out::Err(format!("ClaimCtor/{}", e)),
+                                    Out::Panic(p) => Out::Panic(p),
+                                    Out::Ok(()) => unreachable!(),
+                                });
+                            }
+                        }
+                        GOp::Remove(k) => {
+                            b.remove_claim(k);
+                        }
+                        GOp::Footer(f) => {
+                            b.set_footer(Footer::from(f.as_str()));
+                        }
+                        GOp::Assertion(a) => {
+                            ia_builder!($assert, b, Some(a.as_str()));
+                        }
+                        GOp::Build => {
+                            let (o, _) = guard(
+                                || -> Result<String, HErr<GenericBuilderError>> { seal_keys!($kind, $V, key, |k| b.$seal(&k).map_err(HErr::Lib)) },
+                                fmt_h(builder_err),
+                            );
+                            outs.push(o);
+                        }
+                    }
+                }
+                outs
+            }
+            #[allow(unused_variables)]
             fn batteries_run(key: &KeyMat, ops: &[BOp]) -> Vec<Out<String>> {
                 let mut outs = Vec::new();
                 let mut b = PasetoBuilder::<$V, $Pu>::default();
@@ -979,6 +1028,12 @@ macro_rules! impl_proto {
                                         ia_builder!($assert, p, Some(a.as_str()));
                                     }
                                     PStep::SleepMs(ms) => std::thread::sleep(std::time::Duration::from_millis(*ms)),
+                                    PStep::Check(c) => {
+                                        let one = ParserCfg { expected: vec![c.clone()], ..Default::default() };
+                                        // (leaks one small config per step: PasetoParser::check_claim wants 'static claims)
+                                        let one: &'static ParserCfg = Box::leak(Box::new(one));
+                                        Self::configure_batteries(&mut p, one).map_err(HErr::ClaimCtor)?;
+                                    }
                                     PStep::Parse { token, key } => {
                                         let k = &ks[*key % ks.len()];
                                         let (o, _) = guard(|| -> Result<Value, HErr<GenericParserError>> { p.parse(token, k).map_err(HErr::Lib) }, fmt_h(parser_err));
@@ -998,6 +1053,9 @@ macro_rules! impl_proto {
                                         ia_builder!($assert, p, Some(a.as_str()));
                                     }
                                     PStep::SleepMs(ms) => std::thread::sleep(std::time::Duration::from_millis(*ms)),
+                                    PStep::Check(c) => {
+                                        check_claim_on!(p, c, check_claim).map_err(HErr::ClaimCtor)?;
+                                    }
                                     PStep::Parse { token, key } => {
                                         let k = &ks[*key % ks.len()];
                                         let (o, _) = guard(|| -> Result<Value, HErr<GenericParserError>> { p.parse(token, k).map_err(HErr::Lib) }, fmt_h(parser_err));
@@ -1265,4 +1323,8 @@ pub fn open_at(layer: Layer, p: P, key: &KeyMat, token: &str, footer: Option<&st
 
 pub fn session(p: P, batteries: bool, keys: &[KeyMat], cfg: &ParserCfg, steps: &[PStep]) -> Vec<Out<Value>> {
     dispatch!(p, T => T::session(batteries, keys, cfg, steps))
+}
+
+pub fn generic_run(p: P, key: &KeyMat, ops: &[GOp]) -> Vec<Out<String>> {
+    dispatch!(p, T => T::generic_run(key, ops))
 }
